@@ -1164,7 +1164,13 @@ class Executor:
         raise Unsupported('unary op at line %d' % node.lineno)
 
     def ex_BoolOp(self, node, state):
-        vals = [self.truth(self.ev(v, state), state) for v in node.values]     # NB: no short-circuit; operands are pure here
+        vals = []
+        is_and = isinstance(node.op, ast.And)
+        for v in node.values:
+            t = self.truth(self.ev(v, state), state)
+            if isinstance(t, bool) and t != is_and:
+                return t            # short circuit on a concrete operand: the remaining operands are not evaluated (Python semantics)
+            vals.append(t)          # symbolic operands: all are evaluated (they are pure in the verified subset)
         if all(isinstance(v, bool) for v in vals):
             return all(vals) if isinstance(node.op, ast.And) else any(vals)
         vals = [zb(v) for v in vals]
@@ -1257,6 +1263,8 @@ class Executor:
                 return other.is_inf
             if is_conc_int(other) or isinstance(other, z3.ArithRef):
                 return False
+            if isinstance(other, (SList, STT, SNone)):
+                return False            # a list / object never equals a number
             raise Unsupported('== inf on %s at line %d' % (type(other).__name__, line))
         if isinstance(a, SNum) or isinstance(b, SNum):
             num, other = (a, b) if isinstance(a, SNum) else (b, a)
@@ -1517,6 +1525,9 @@ def sym_elem_fn(kind, state):
     if kind == 'bool':
         f = fresh_fun('lb', z3.IntSort(), z3.BoolSort())
         return lambda j, f=f: f(j)
+    if kind == 'maxrank':
+        fi, fv = fresh_fun('mri', z3.IntSort(), z3.BoolSort()), fresh_fun('mrv', z3.IntSort(), z3.IntSort())
+        return lambda j: SMaxRank('ite', fi(j), fv(j))
     if kind == 'num':
         fz, fn_ = fresh_fun('lnz', z3.IntSort(), z3.BoolSort()), fresh_fun('lge0', z3.IntSort(), z3.BoolSort())
         return lambda j: SNum('elem', nonzero=fz(j), nonneg=fn_(j))
